@@ -81,6 +81,7 @@ func genFinCase(t *rapid.T) *finCase {
 	f.Tail = rapid.SampledFrom([]int64{0, 4096, 1 << 20}).Draw(t, "tail")
 	if f.FS == "iso9660" {
 		f.BS = rapid.SampledFrom([]int64{2048, 2048, 4096, 8192}).Draw(t, "isobs")
+		// (C03 judges containment only, so other block sizes stay in its domain even while KF-ISO-BLOCKSIZE is active)
 		f.Tree = genTree(t, treeOpts{maxEntries: 14, maxDepth: 5, unit: int(f.BS), names: "iso", bigDirs: true})
 		f.Iso = genIsoOpts(t)
 		f.Start = f.Start / f.BS * f.BS
